@@ -275,6 +275,13 @@ class ParsedComponentLink(ComponentLink):
     def compute(self, data, view=None):
         return self._parsed.evaluate(data, view)
 
+    def replace_ids(self, old, new):
+        super(ParsedComponentLink, self).replace_ids(old, new)
+        # The parsed command holds its own references to the component IDs
+        for tag, cid in self._parsed._references.items():
+            if cid is old:
+                self._parsed._references[tag] = new
+
     def __gluestate__(self, context):
         return dict(parsed=context.do(self._parsed),
                     to=context.id(self.get_to_id()))
